@@ -25,6 +25,7 @@ import (
 
 	"git.torproject.org/pluggable-transports/snowflake.git/v2/common/namematcher"
 	"git.torproject.org/pluggable-transports/snowflake.git/v2/common/safelog"
+	"git.torproject.org/pluggable-transports/snowflake.git/v2/common/verifhook"
 	"github.com/prometheus/client_golang/prometheus"
 	"github.com/prometheus/client_golang/prometheus/promhttp"
 	"golang.org/x/crypto/acme/autocert"
@@ -118,6 +119,7 @@ func (ctx *BrokerContext) Broker() {
 			case offer := <-snowflake.offerChannel:
 				request.offerChannel <- offer
 			case <-time.After(time.Second * ProxyTimeout):
+				verifhook.Point("broker.proxy-timeout.before-lock", snowflake.id)
 				// This snowflake is no longer available to serve clients.
 				ctx.snowflakeLock.Lock()
 				defer ctx.snowflakeLock.Unlock()
